@@ -308,14 +308,36 @@ Definition all_sites : list site :=
 Lemma all_sites_complete st : In st all_sites.
 Proof. destruct st; cbn; tauto. Qed.
 
-(* full strength: every implicit conversion site is checked *)
+(* the rule of add_converted_val applied to the flags of one call *)
+Definition call_checked (f u : Z) : bool :=
+  negb (flag_true f || (negb check_rule_ignores_untypedinit && flag_true u)).
+
+(* full strength, over the call sites scraped from cgenerator.lua on this run: every
+   add_converted_val call except the explicit cast (visitors.Call#1) performs the checked
+   conversion *)
+Definition all_conversion_calls_checked : Prop :=
+  forall v o f u, In (v, o, f, u) conv_sites -> (v, o) <> (3, 1) -> call_checked f u = true.
+
+Lemma conv_calls_all_checked : all_conversion_calls_checked.
+Proof.
+  assert (H : forallb (fun '(v, o, f, u) => ((v =? 3) && (o =? 1)) || call_checked f u) conv_sites = true)
+    by (vm_compute; reflexivity).
+  rewrite forallb_forall in H. intros v o f u Hin Hne. specialize (H _ Hin). cbn in H.
+  apply orb_prop in H. destruct H as [H | H]; [|exact H].
+  apply andb_prop in H. destruct H as [H1 H2]. apply Z.eqb_eq in H1, H2. subst. contradiction.
+Qed.
+
+(* the explicit cast is the one unchecked call *)
+Lemma cast_call_unchecked : exists f u, In (3, 1, f, u) conv_sites /\ call_checked f u = false.
+Proof. exists 1, 2. split; [vm_compute; tauto | reflexivity]. Qed.
+
+(* the named sites the driver exercises (a view of the same table) *)
 Definition all_implicit_sites_checked : Prop :=
   forall st, site_implicit st = true -> site_checked st = true.
 
 Lemma sites_all_checked : all_implicit_sites_checked.
 Proof. intros st H. destruct st; try discriminate H; vm_compute; reflexivity. Qed.
 
-(* the explicit cast is the only unchecked site *)
 Lemma site_checked_iff st : site_checked st = site_implicit st.
 Proof. destruct st; vm_compute; reflexivity. Qed.
 
@@ -386,6 +408,42 @@ Proof.
   - apply in_rangeb_spec. rewrite R. reflexivity.
 Qed.
 
+(* ---------------------------------------------------------------- `///` and `%%%` *)
+
+(* what the property asks of truncating division of signed integers in a checked build *)
+Definition tdiv_check_full : Prop := forall t a b, wf_ity t -> sgn t = true -> in_range t a -> in_range t b ->
+  ccall Gnu (tdiv_fn t) [a; b] = (if b =? 0 then Opanic MSG_DIVZERO else Oval (wrap t (Z.quot a b))) /\
+  ccall Gnu (tmod_fn t) [a; b] = (if b =? 0 then Opanic MSG_DIVZERO else Oval (Z.rem a b)).
+
+(* false: the emitted plain C operators are undefined for b = 0 (no diagnostic: the process dies
+   with SIGFPE) and for min / -1 on 32 and 64 bit operands *)
+Lemma tdiv_check_refuted : ~ tdiv_check_full.
+Proof.
+  intros H. destruct (H I32 7 0) as [H1 _]; try reflexivity; try (vm_compute; split; congruence).
+  vm_compute in H1. discriminate.
+Qed.
+
+Lemma tdiv_undefined_witnesses :
+  run_tdiv I32 7 0 = Oub /\ run_tmod I32 7 0 = Oub /\
+  run_tdiv I64 (-9223372036854775808) (-1) = Oub /\ run_tmod I64 (-9223372036854775808) (-1) = Oub /\
+  run_tdiv I32 (-2147483648) (-1) = Oub /\ run_tdiv I8 (-128) (-1) = Oval (-128).
+Proof. repeat split. Qed.
+
+(* the strongest true restriction: a non-zero divisor, and not min / -1 on a type as wide as int *)
+Lemma tdiv_check_partial t a b : wf_ity t -> sgn t = true -> in_range t a -> in_range t b ->
+  b <> 0 -> (bits t < 32 \/ ~ (a = tmin t /\ b = -1)) ->
+  ccall Gnu (tdiv_fn t) [a; b] = Oval (wrap t (Z.quot a b)) /\
+  ccall Gnu (tmod_fn t) [a; b] = Oval (wrap t (Z.rem a b)).
+Proof.
+  intros Ht Hs Ha Hb Hb0 Hm. apply in_rangeb_spec in Ha, Hb.
+  assert (B0 : (b =? 0) = false) by lia.
+  ity_cases t Ht; try discriminate Hs; clear Hs; split.
+  all: try (assert (B1 : (a =? -2147483648) && (b =? -1) = false) by (unfold I32 in *; cbn [bits] in Hm; expose_ranges; lia)).
+  all: try (assert (B2 : (a =? -9223372036854775808) && (b =? -1) = false) by (unfold I64 in *; cbn [bits] in Hm; expose_ranges; lia)).
+  all: csolve.
+  all: cfinish.
+Qed.
+
 (* ---------------------------------------------------------------- non-vacuity examples *)
 Example ex_narrow_fires : ccall Gnu (mkcfun [I64] U8 (Sseq (Sif (Elor (Ebin Olt (Evar 0) (Elit I32 0)) (Ebin Ogt (Evar 0) (Elit I32 255))) (Spanic 2) Sskip) (Sret (Ecast U8 (Evar 0))))) [300] = Opanic 2.
 Proof. reflexivity. Qed.
@@ -415,6 +473,12 @@ Lemma helpers_tie :
   deref_fn = deref_emitted /\
   (forall d s b, In (d, s, b) inrange_table -> needs_check d s = negb b) /\
   conv_sites = expected_sites /\
+  (* a narrow helper is emitted exactly for the pairs the compiler says need one, and the tables
+     are not empty (the driver converts every pair of its ten types, indexes with every type) *)
+  (forallb (fun '(d, s, b) =>
+     Bool.eqb (existsb (fun '(s', d', _) => ity_eqb s s' && ity_eqb d d') narrow_table) (negb b)) inrange_table = true /\
+   (50 <= Z.of_nat (length narrow_table) /\ 8 <= Z.of_nat (length bounds_table) /\
+    4 <= Z.of_nat (length idiv_table) /\ 4 <= Z.of_nat (length imod_table) /\ 64 <= Z.of_nat (length inrange_table))) /\
   (guard_span_at = lib_guard SpanAt /\ guard_vector_at = lib_guard VecAt /\
    guard_vector_insert = lib_guard VecInsert /\ guard_vector_remove = lib_guard VecRemove /\
    guard_vector_pop = lib_guard VecPop /\ guard_sequence_at = lib_guard SeqAt /\
@@ -422,7 +486,7 @@ Lemma helpers_tie :
    guard_sequence_pop = lib_guard SeqPop /\ guard_string_at = lib_guard StrAt /\
    Some guard_sequence_at_pre = lib_pre SeqAt).
 Proof.
-  split; [|split; [|split; [|split; [|split; [|split; [|split]]]]]].
+  split; [|split; [|split; [|split; [|split; [|split; [|split; [|split]]]]]]].
   - intros s d f H. exact (table_matches_spec (fun '(s, d) => narrow_fn s d) narrow_table narrow_table_ok (s, d) f H).
   - intros t f H. exact (table_matches_spec _ _ bounds_table_ok t f H).
   - intros t f H. exact (table_matches_spec _ _ idiv_table_ok t f H).
@@ -432,5 +496,6 @@ Proof.
     apply andb_prop in T. destruct T as [T _]. apply andb_prop in T. destruct T as [T _].
     apply Bool.eqb_prop in T. unfold needs_check. rewrite T. reflexivity.
   - exact conv_sites_ok.
+  - split; [exact narrow_emitted_iff_needed | vm_compute; repeat split; congruence].
   - repeat split; apply cexpr_eqb_eq || (cbn [lib_pre]; f_equal; apply cexpr_eqb_eq); vm_compute; reflexivity.
 Qed.
